@@ -26,7 +26,12 @@ use std::sync::atomic::{AtomicU64, Ordering};
 use vm_memory::{Bytes, ReadVolatile, VolatileMemoryError, VolatileSlice, WriteVolatile};
 
 // C14adapt: the same cases and observations, judged by C14's conservation checker (coq/Suite/C14.v)
-pub const SUITES: &[Suite] = &[Suite { name: "C13", gen, exec }, Suite { name: "C14adapt", gen, exec }];
+// C13fd: scripted REAL descriptors (read(2) / write(2) intercepted by crate::fdscript), see the end of this file
+pub const SUITES: &[Suite] = &[
+    Suite { name: "C13", gen, exec },
+    Suite { name: "C14adapt", gen, exec },
+    Suite { name: "C13fd", gen: gen_fd, exec: exec_fd },
+];
 
 const CANARY: u8 = 197;
 const MARGIN: usize = 8;
@@ -73,9 +78,9 @@ fn su(r: std::io::Result<()>) -> (u64, u64) {
 }
 
 /// a heap array that outlives the slices / cursors borrowed from it (freed in Drop)
-struct Backing {
-    ptr: *mut u8,
-    len: usize,
+pub(crate) struct Backing {
+    pub(crate) ptr: *mut u8,
+    pub(crate) len: usize,
 }
 impl Backing {
     fn new(content: &[u8]) -> Backing {
@@ -176,7 +181,7 @@ fn dec_msgs(l: &[u128]) -> Vec<Vec<u8>> {
     out
 }
 
-enum Stream {
+pub(crate) enum Stream {
     /// message queue: `a` is the end under test, `b` the peer (stays open)
     Msg { a: OwnedFd, b: OwnedFd, kind: u64 },
     SliceR { back: Backing, cur: &'static [u8] },
@@ -210,7 +215,7 @@ impl Stream {
         Stream::Msg { a, b, kind }
     }
 
-    fn new(kind: u64, content: &[u8], pos: u64, vm: bool) -> Stream {
+    pub(crate) fn new(kind: u64, content: &[u8], pos: u64, vm: bool) -> Stream {
         match kind {
             0 => {
                 let back = Backing::new(content);
@@ -273,7 +278,7 @@ impl Stream {
     }
 
     /// (data, pos, out) observed independently of the adapter
-    fn observe(&mut self) -> (Tok, u64, Tok) {
+    pub(crate) fn observe(&mut self) -> (Tok, u64, Tok) {
         if let Stream::Msg { a, b, .. } = self {
             // what the adapter sent, then what is still queued for it (sent again in the same order)
             let out = recv_all(b.as_raw_fd());
@@ -532,6 +537,10 @@ fn step(s: &mut Stream, vm: bool, opc: u64, arg: &Tok) -> ((u64, u64), Vec<u8>, 
 }
 
 fn exec(case: &[Tok]) -> Vec<Tok> {
+    // a retry loop that never ends (e.g. EAGAIN of an empty message queue treated like EINTR) must not stall the check
+    crate::fdscript::watched(|| exec_inner(case))
+}
+fn exec_inner(case: &[Tok]) -> Vec<Tok> {
     let kind = case[1].u();
     let msgq = (9..=12).contains(&kind);
     let content = if msgq { vec![] } else { case[2].bytes() };
@@ -768,5 +777,250 @@ fn gen(rng: &mut Rng, tier: Tier, emit: &mut dyn FnMut(Vec<Tok>)) {
             ops.push((opc, Tok::of_bytes(&rng.bytes(blen))));
         }
         case!(kind, &content, pos, &ops);
+    }
+}
+
+// =========================================================================================== suite C13fd
+// C13fd: the descriptor adapters (File, UnixStream, OwnedFd, BorrowedFd) on REAL descriptors whose read(2) /
+// write(2) calls follow a per-operation script (crate::fdscript: Full, Short k, Zero, Eintr, hard error; the
+// real call when the script is over).  The std twin is a std::fs::File around a twin descriptor under the SAME
+// script (std's read_exact / write_all loops go through the same intercepted calls).
+// case:  mode kind [content] pos (opcode [arg] [script])*
+//   kind 5 File  6 UnixStream  7 pipe (OwnedFd)   13 / 14 / 15: the same through VolatileSlice::{read_volatile_from,
+//        read_exact_volatile_from, write_volatile_to, write_all_volatile_to}(0, fd, len) (14 as BorrowedFd)
+//   script element 0 Full 1 Zero 2 Eintr 3..8 hard error (EIO EAGAIN EBADF ENOSPC EPIPE ECONNRESET) 16+k Short k
+// obs per op (14 tokens): adapter rk n [buf] margins_ok [data] pos [out] calls; twin rk n [buf] [data] pos [out]
+use crate::fdscript::{self, Beh};
+
+impl Stream {
+    /// the descriptor an operation of the given direction goes to
+    pub(crate) fn raw_fd(&self, is_read: bool) -> i32 {
+        match self {
+            Stream::FileS { f, .. } => f.as_raw_fd(),
+            Stream::Sock { a, .. } => a.as_raw_fd(),
+            Stream::PipeVm { rd, wr, .. } => if is_read { rd.as_raw_fd() } else { wr.as_raw_fd() },
+            Stream::PipeTw { rd, wr, .. } => if is_read { rd.as_raw_fd() } else { wr.as_raw_fd() },
+            _ => panic!("not a descriptor stream"),
+        }
+    }
+
+    /// one operation (0 read 1 read_exact 2 write 3 write_all) on arena[MARGIN..MARGIN+len]
+    fn fd_op(&mut self, vm: bool, route: bool, opc: u64, arena: &mut [u8], len: usize) -> (u64, u64) {
+        let fd = self.raw_fd(opc <= 1);
+        let b = &mut arena[MARGIN..MARGIN + len];
+        if !vm {
+            // std twin: a File around the descriptor (read(2) / write(2); std's UnixStream would use recv / send)
+            let mut file = ManuallyDrop::new(unsafe { File::from_raw_fd(fd) });
+            return match opc {
+                0 => sn(file.read(b)),
+                1 => su(file.read_exact(b)),
+                2 => sn(file.write(b)),
+                _ => su(file.write_all(b)),
+            };
+        }
+        macro_rules! run {
+            ($s:expr) => {{
+                let mut vs = VolatileSlice::from(b);
+                match (opc, route) {
+                    (0, false) => vn(ReadVolatile::read_volatile($s, &mut vs)),
+                    (1, false) => vu(ReadVolatile::read_exact_volatile($s, &mut vs)),
+                    (2, false) => vn(WriteVolatile::write_volatile($s, &vs)),
+                    (3, false) => vu(WriteVolatile::write_all_volatile($s, &vs)),
+                    (0, true) => vn(vs.read_volatile_from(0, $s, len)),
+                    (1, true) => vu(vs.read_exact_volatile_from(0, $s, len)),
+                    (2, true) => vn(vs.write_volatile_to(0, $s, len)),
+                    _ => vu(vs.write_all_volatile_to(0, $s, len)),
+                }
+            }};
+        }
+        match self {
+            Stream::FileS { f, .. } => run!(f),
+            Stream::Sock { a, .. } => {
+                if route {
+                    let mut bf = a.as_fd();
+                    run!(&mut bf)
+                } else {
+                    run!(a)
+                }
+            }
+            Stream::PipeVm { rd, wr, .. } => {
+                if opc <= 1 {
+                    run!(rd)
+                } else {
+                    run!(wr)
+                }
+            }
+            _ => panic!("not a vm-memory descriptor stream"),
+        }
+    }
+}
+
+fn script_of(t: &Tok) -> Vec<Beh> {
+    t.l().iter().map(|x| fdscript::beh_of(*x)).collect()
+}
+
+/// runs one scripted operation; returns (rc, buffer after, margins intact, calls the descriptor received)
+fn fd_step(s: &mut Stream, vm: bool, route: bool, opc: u64, arg: &Tok, script: &[Beh]) -> ((u64, u64), Vec<u8>, bool, u64) {
+    if opc == 4 {
+        s.set_pos(arg.l()[0] as u64);
+        return ((9, 0), vec![], true, 0);
+    }
+    assert!(opc <= 3, "bad opcode");
+    let buf = arg.bytes();
+    let len = buf.len();
+    let mut arena = vec![CANARY; len + 2 * MARGIN];
+    arena[MARGIN..MARGIN + len].copy_from_slice(&buf);
+    let fd = s.raw_fd(opc <= 1);
+    let (rc, calls) = fdscript::with_script(fd, script, || s.fd_op(vm, route, opc, &mut arena, len));
+    let rc = rc.unwrap_or((8, 0));
+    let ok = arena[..MARGIN].iter().all(|&x| x == CANARY) && arena[MARGIN + len..].iter().all(|&x| x == CANARY);
+    (rc, arena[MARGIN..MARGIN + len].to_vec(), ok, calls)
+}
+
+fn exec_fd(case: &[Tok]) -> Vec<Tok> {
+    fdscript::self_test();
+    fdscript::watched(|| exec_fd_inner(case))
+}
+fn exec_fd_inner(case: &[Tok]) -> Vec<Tok> {
+    let kind = case[1].u();
+    let (base, route) = match kind {
+        5 | 6 | 7 => (kind, false),
+        13 | 14 | 15 => (kind - 8, true),
+        _ => panic!("bad kind"),
+    };
+    let content = case[2].bytes();
+    let pos = case[3].u();
+    assert!((case.len() - 4) % 3 == 0);
+    let ops: Vec<(u64, &Tok, Vec<Beh>)> = case[4..].chunks(3).map(|op| (op[0].u(), &op[1], script_of(&op[2]))).collect();
+    if base == 5 && (pos > 65536 || ops.iter().any(|op| op.0 == 4 && op.1.l()[0] > 65536)) {
+        panic!("file offset out of the supported range");
+    }
+    if base != 5 && pos != 0 {
+        panic!("a queue has no position");
+    }
+    if ops.iter().any(|op| op.2.len() > 64 || (op.0 == 4 && !op.2.is_empty())) {
+        panic!("bad script");
+    }
+    if route && ops.iter().any(|op| (op.0 == 0 || op.0 == 2) && op.2.first() == Some(&Beh::Eintr)) {
+        panic!("up-to forms of the VolatileSlice route retry EINTR: not a C13fd case");
+    }
+    let mut a = Stream::new(base, &content, pos, true);
+    let mut t = Some(Stream::new(base, &content, pos, false));
+    let mut out = Vec::new();
+    for (opc, arg, script) in &ops {
+        let (rc, buf, ok, calls) = fd_step(&mut a, true, route, *opc, arg, script);
+        let (d, p, o) = a.observe();
+        out.extend([n(rc.0), n(rc.1), Tok::of_bytes(&buf), Tok::b(ok), d, n(p), o, n(calls)]);
+        match t.as_mut() {
+            None => out.extend([n(7u8), n(0u8), Tok::L(vec![]), Tok::L(vec![]), n(0u8), Tok::L(vec![])]),
+            Some(tw) => {
+                let (rc, buf, _, _) = fd_step(tw, false, false, *opc, arg, script);
+                if rc.0 == 0 || rc.0 == 1 || rc.0 == 9 {
+                    let (d, p, o) = tw.observe();
+                    let tb = if *opc <= 1 { buf } else { vec![] };
+                    out.extend([n(rc.0), n(rc.1), Tok::of_bytes(&tb), d, n(p), o]);
+                } else {
+                    out.extend([n(rc.0), n(rc.1), Tok::L(vec![]), Tok::L(vec![]), n(0u8), Tok::L(vec![])]);
+                    t = None;
+                }
+            }
+        }
+    }
+    out
+}
+
+const FD_ALPHABET: [&[u128]; 9] = [&[0], &[17], &[19], &[1], &[2], &[2, 2], &[3], &[4], &[16]];
+
+fn gen_fd(rng: &mut Rng, tier: Tier, emit: &mut dyn FnMut(Vec<Tok>)) {
+    let mode = crate::build_mode();
+    let quick = tier == Tier::Quick;
+    let mut raw = |kind: u64, content: &[u8], pos: u64, ops: &[(u64, Tok, Vec<u128>)]| {
+        let mut v = vec![n(mode), n(kind), Tok::of_bytes(content), n(pos)];
+        for (c, a, s) in ops {
+            // the up-to forms of the VolatileSlice route must not start with EINTR (see Suite/C13fd.v)
+            let mut s = s.clone();
+            if kind >= 13 && (*c == 0 || *c == 2) {
+                while s.first() == Some(&2) {
+                    s.remove(0);
+                }
+            }
+            if *c == 4 {
+                s.clear();
+            }
+            v.push(n(*c));
+            v.push(a.clone());
+            v.push(Tok::L(s));
+        }
+        emit(v)
+    };
+    // 1. every script of up to 2 (quick) / 3 (thorough) symbols x stream length x buffer length x operation x kind
+    let maxlen = if quick { 2 } else { 3 };
+    let mut scripts: Vec<Vec<u128>> = vec![vec![]];
+    let mut frontier: Vec<Vec<u128>> = vec![vec![]];
+    for _ in 0..maxlen {
+        let mut next = Vec::new();
+        for s in &frontier {
+            for a in FD_ALPHABET.iter() {
+                let mut t = s.clone();
+                t.extend_from_slice(a);
+                next.push(t);
+            }
+        }
+        scripts.extend(next.iter().cloned());
+        frontier = next;
+    }
+    let mut i = 0u64;
+    for kind in [5u64, 6, 7, 13, 14, 15] {
+        for slen in [0usize, 2, 8, 11] {
+            for blen in [0usize, 1, 5, 9] {
+                for opc in 0..4u64 {
+                    for sc in &scripts {
+                        i += 1;
+                        if quick && i % 2 != 0 {
+                            continue;
+                        }
+                        let content = pattern(rng, slen);
+                        let buf = pattern(rng, blen);
+                        let pos = if kind % 8 == 5 { (i % 4).min(slen as u64) } else { 0 };
+                        raw(kind, &content, pos, &[(opc, Tok::of_bytes(&buf), sc.clone())]);
+                    }
+                }
+            }
+        }
+    }
+    // 2. random histories of up to 4 operations, every operation with its own random script
+    let nhist = if quick { 16_000 } else { 300_000 };
+    for _ in 0..nhist {
+        let kind = *rng.pick(&[5u64, 5, 6, 7, 13, 14, 15]);
+        let file = kind % 8 == 5;
+        let slen = if rng.chance(1, 4) { rng.below(4) as usize } else { rng.below(21) as usize };
+        let content = rng.bytes(slen);
+        let pos = if file { rng.below(slen as u64 + 3) } else { 0 };
+        let nops = rng.range(1, 4);
+        let mut ops = Vec::new();
+        for _ in 0..nops {
+            if file && rng.chance(1, 6) {
+                ops.push((4u64, Tok::L(vec![rng.below(slen as u64 + 4) as u128]), vec![]));
+                continue;
+            }
+            let blen = match rng.below(5) {
+                0 => 0,
+                1 => rng.range(7, 9) as usize,
+                2 => slen.saturating_sub(rng.below(2) as usize).min(20),
+                _ => rng.below(21) as usize,
+            };
+            let nsym = if rng.chance(1, 8) { rng.range(5, 9) } else { rng.range(0, 4) };
+            let mut sc: Vec<u128> = Vec::new();
+            for _ in 0..nsym {
+                match rng.below(8) {
+                    0 => sc.push(16 + rng.below(6) as u128),
+                    1 => sc.push(16 + rng.range(1, 12) as u128),
+                    2 => sc.push(3 + rng.below(6) as u128),
+                    _ => sc.extend_from_slice(*rng.pick(&FD_ALPHABET)),
+                }
+            }
+            ops.push((rng.below(4), Tok::of_bytes(&rng.bytes(blen)), sc));
+        }
+        raw(kind, &content, pos, &ops);
     }
 }
